@@ -21,6 +21,7 @@ type polyState struct {
 
 func checkC20(c *Ctx) {
 	p := mustLoad(c, K1)
+	indexLints(c, p, "ecc/*/fr/iop", "ecc/*/fr/polynomial")
 	eff := sharedEffects(p)
 	c.Rule("C20.typestate", "TYPESTATE (L13): in ToLagrange, ToCanonical, ToLagrangeCoset, ToRegular, ToBitReverse, every switch arm, started in each form it lists, applies FFT / FFTInverse / BitReverse calls whose preconditions hold (DIF needs regular layout, DIT bit-reversed; FFT needs the canonical basis, FFTInverse a Lagrange basis, the coset option exactly on the coset basis) and ends in the (basis, layout) that the arm stores into the polynomial; the six forms are all covered or the default panics. Transfer table = contract of the fft package", 7*5)
 	c.Rule("C20.zero", "DEGENERATE (L4): no multiplication, exponentiation, division or inversion takes as operand a local field element that was never assigned (definitely zero) — e.g. g.Exp(g, k) on a fresh g", 7)
